@@ -111,20 +111,27 @@ def main():
             if rc != 0:
                 meta["error"] = "git apply on /repo failed: " + out[-300:]
             else:
-                for chk in man["checks"]:
-                    pid = chk["property_id"]
-                    rc2, out2 = sh(chk["quick_cmd"], cwd=VERIF)
-                    viol = [l for l in out2.splitlines() if l.startswith("VIOLATION")]
-                    fails = [l[5:].strip() for l in out2.splitlines() if l.startswith("FAIL ")]
-                    results[pid] = {"exit": rc2, "violations": len(viol), "failing_keys": fails}
+                # all registered checks on one extraction of the facts (`./check ALL` runs each property's quick check)
+                rc2, out2 = sh("./check ALL --tier quick", cwd=VERIF)
+                cur_fail, cur_viol = [], 0
+                for l in out2.splitlines():
+                    if l.startswith("FAIL "):
+                        cur_fail.append(l[5:].strip())
+                    elif l.startswith("VIOLATION"):
+                        cur_viol += 1
+                    else:
+                        m_ = re.match(r"^(C\d\d): \d+ obligations, .* (\d+) violations", l)
+                        if m_:
+                            results[m_.group(1)] = {"exit": 1 if int(m_.group(2)) else 0, "violations": cur_viol, "failing_keys": cur_fail}
+                            cur_fail, cur_viol = [], 0
         finally:
             sh("git -C %s checkout -- ." % REPO)
         meta["checks_with_change_applied"] = results
         meta["caught_by"] = sorted(p for p, r in results.items() if r["exit"] == 1)
         meta["caught_by_own_property"] = prop in meta["caught_by"]
         # restore evidence of the unchanged tree for the checks that fired
-        for p in meta["caught_by"]:
-            sh("./check %s" % p, cwd=VERIF)
+        if meta["caught_by"]:
+            sh("./check ALL --tier quick", cwd=VERIF)
     meta["at"] = time.strftime("%Y-%m-%dT%H:%M:%SZ", time.gmtime())
     json.dump(meta, open(os.path.join(dst, "meta.json"), "w"), indent=1)
     print(json.dumps({k: meta[k] for k in meta if k != "ran"}, indent=1))
